@@ -1,6 +1,6 @@
 PROPS["C14"] = prop(
     "exploration",
-    "rapid-generated programs of parallel request batches (sub/leave/unsub/pub/get/del topic/evict/disconnect, slow consumers, idle unloads) issued by concurrent goroutines under the Go race detector; quiescence invariants: every request answered, session.subs <=> topic.sessions, online counters exact, no goroutine left, no deadlock/hang",
+    "rapid-generated programs of parallel request batches (sub/leave/unsub/pub/get/del topic/evict/disconnect, slow consumers, idle unloads) issued by concurrent goroutines under the Go race detector; quiescence invariants: every request answered, session.subs <=> topic.sessions, online counters exact, no goroutine left, no deadlock/hang; session 3: connections replaced inside a batch, abandoned long-polling sessions which the registry expires, batches sent at the moment of the idle timer, store latency, deletion of an unloaded P2P topic",
     "program = 4-6 sessions of 3 users + prologue + 2-8 batches (2..n concurrent requests from distinct sessions, generated yields), reconnects, ticks around the idle timeout, slow-consumer floods; "
     "non-trivial = a batch with >=3 concurrent requests touching one topic of which >=1 detaches, disconnects or deletes; distinct = FNV-64 of the program",
     "Schedules are sampled from what the Go runtime produces under generated perturbation; every race-detector report, unanswered request, attachment-table asymmetry, wrong online counter, leaked goroutine, deadlock or hang is a violation.",
